@@ -5,10 +5,11 @@ Import ListNotations.
 
 (** Available=True is newly written for generation G only by a pass that read generation G, in which
     every object of every local phase existed and passed the probes and every delegated phase's phase object,
-    as read in this pass, carried Available=True for its own current generation; with a controllerOf list in
-    which every entry was seen controlled by the ObjectSet or is reported by such a phase object, and which is
-    complete for the local phases. (Restated: with delegated phases the list also relays what their phase
-    objects report; for an ObjectSet without delegated phases this is the former statement.) *)
+    as read in this pass and controlled by this ObjectSet, carried Available=True for its own current
+    generation; with a controllerOf list in which every entry was seen controlled by the ObjectSet or is
+    reported by such a phase object, and which is complete for the local phases; every status.remotePhases entry
+    is the stored one or names such a phase object with its uid. (For an ObjectSet without delegated phases this
+    is the former statement.) *)
 Theorem C06_available_true_justified :
   forall force sw k ns n mem0 sw' evs r rev conds ctrlof rem fph ok cd,
     find_set (sw_sets sw) k ns n = Some mem0 -> is_active mem0 ->
@@ -18,8 +19,10 @@ Theorem C06_available_true_justified :
     find_cond (os_conds mem0) CAvailable <> Some cd ->
     cd_gen cd = os_gen mem0 /\ fph = None /\
     (forall q, In q (local_phases mem0) -> phase_ok (sw_w sw') (as_owner mem0) q) /\
-    (forall q, In q (delegated_phases mem0) -> exists cur, phase_read evs (pobj_name mem0 q) cur /\ avail_current cur) /\
+    (forall q, In q (delegated_phases mem0) -> exists cur, own_phase_read mem0 evs q cur /\ avail_current cur) /\
     (forall key, In key ctrlof -> seen_controlled (sw_w sw') (as_owner mem0) key \/ reported_by_phase mem0 (os_phases mem0) evs key) /\
+    (forall x, In x rem -> In x (os_remotes mem0) \/
+       exists q cur, In q (os_phases mem0) /\ ph_class q = true /\ own_phase_read mem0 evs q cur /\ x = (pobj_name mem0 q, oi_uid (op_id cur))) /\
     (forall key, In key (flat_map (phase_keys (as_owner mem0)) (local_phases mem0)) ->
                  seen_controlled (sw_w sw') (as_owner mem0) key -> In key ctrlof).
 Proof. exact C06_available_true_justified_all. Qed.
